@@ -135,6 +135,17 @@ def r1_errors_carry_location(ctx: Ctx) -> None:
     ev = h_name(pa.node)
     ok = all(any(alt in msg for alt in alts) for alts in ((f"str({ev}.position)", f"{{{ev}.position}}"), (f"{ev}.position.get_line()",), (f"{ev}.position.column",)))
     ctx.check(ok, "parse_as_ast:scanner-error-message", f"prints file:line:column, the line's text and a caret at the column; message expression: {msg}")
+    # the file entry points log a NodeError through its __str__ (the only place file, line and quoted text are put together)
+    awe = repo.func("a816.program", "Program.assemble_with_emitter")
+    n_log = 0
+    for h in [n for n in walk_no_nested(awe.node) if isinstance(n, ast.ExceptHandler) and "NodeError" in unparse(h_type(n))]:
+        for c in [c for b in h.body for c in calls_in(b) if (call_name(c) or "").endswith((".error", ".exception", ".warning", ".critical"))]:
+            n_log += 1
+            arg = unparse(c.args[0]) if c.args else ""
+            ctx.check(arg in (f"str({h.name})", h.name, f"f'{{{h.name}}}'", f"repr({h.name})") or (h.name is not None and f"{{{h.name}}}" in arg and f"{h.name}." not in arg),
+                      "assemble_with_emitter:logs-NodeError", f"the logged text is the error's own string (file:line and the quoted source line); it logs `{arg}`")
+    if n_log == 0:
+        raise AnalysisError("assemble_with_emitter: NodeError handler with a log call not found")
     pos = repo.func("a816.parse.tokens", "Position.__str__")
     ctx.check("self.file.filename" in unparse(pos.node) and "self.line" in unparse(pos.node) and "self.column" in unparse(pos.node), "Position.__str__", "file:line:column")
     pk = repo.func(PST, "parse_keyword")
